@@ -541,6 +541,30 @@ def deep_nesting(ctx):
             ctx.cov.setdefault('stale_findings', []).append(probe_key(expr))
 
 
+def long_digit_runs(ctx):
+    """Integers longer than CPython converts (4300 digits by default) wherever the tokenizers read one; implementation
+    oracle only: the model's numbers are unbounded (repaired 59398b0: escaped with ValueError).  `lorem<digits>` is
+    left out: a count of that size cannot be generated in any case."""
+    n = 0
+    for k in (4300, 4301, 6000):
+        d = '7' * k
+        for abbr, cfg in (('p*' + d, {}), ('a.c$@' + d + '*2', {}), ('a$@-' + d, {'syntax': 'pug'}), ('p{${' + d + '}}', {}),
+                          ('a[b=${' + d + ':x}]', {'syntax': 'jsx'}), ('ul>li*' + d + '>a', {'options': {'bem.enabled': True}}),
+                          ('p${' + d + '}', {'type': 'stylesheet'}), ('m:${' + d + ':x}', {'type': 'stylesheet', 'syntax': 'sass'})):
+            if k <= 4300 and '*' + d in abbr:
+                continue                  # a convertible count of that size: 10**4300 copies, not a question of safety
+            r = outcome(abbr, cfg)
+            ctx.count_eval()
+            n += 1
+            ctx.cover('markup:long-digits:' + str(r[0]))
+            bad = oracle(abbr, cfg, r)
+            if bad:
+                ctx.property_failure('markup-long:%s|%d|%s' % (abbr[:10], k, canon_cfg(cfg)),
+                                     'expand(%r + %d digits ..., %s): %s' % (abbr[:8], k, canon_cfg(cfg), bad),
+                                     {'component': 'markup', 'abbr': abbr, 'config': cfg, 'impl': repr(r)[:200], 'why': bad})
+    ctx.cov['long_digit_run_inputs'] = n
+
+
 # ---------------------------------------------------------------- run
 def run_markup(ctx, model_ok=True):
     cs, n_ex = gen(ctx)
@@ -591,6 +615,7 @@ def run_markup(ctx, model_ok=True):
         a, ci, t = cs.items[i]
         ctx.sample({'component': 'markup', 'abbr': a, 'config': cs.cfgs[ci], 'impl': repr(impl[i])[:160]})
     deep_nesting(ctx)
+    long_digit_runs(ctx)
     # ---- the invariant behind the tokenizer->converter link, checked on the real tokenizer
     check_bridge_invariant(ctx, sorted({a for a, ci, t in cs.items if t.startswith('exhaustive:') or t in ('random', 'mutation', 'valid')}))
     ctx.cov['theorem_status'] = {
